@@ -8,8 +8,8 @@ from vlib import tlc, make_cfg, vh, workdir, write_ndjson, read_ndjson, Verdict,
 PID = "C10"
 
 
-def model(w, maxops, checked, invs, tag, names='{"t1", "t2"}', probe="FALSE", minops=0, simulate=None, seed=None):
-    cfg = make_cfg("MC_Editor.cfg", {"MaxOps": maxops, "ThresholdChecked": checked, "Names": names, "ProbeRefusals": probe, "MinOps": minops}, os.path.join(w, f"{tag}.cfg"), invariants=invs)
+def model(w, maxops, checked, invs, tag, names='{"t1", "t2"}', probe="FALSE", minops=0, simulate=None, seed=None, dkeys="{110, 111}"):
+    cfg = make_cfg("MC_Editor.cfg", {"MaxOps": maxops, "ThresholdChecked": checked, "Names": names, "ProbeRefusals": probe, "MinOps": minops, "DKeys": dkeys}, os.path.join(w, f"{tag}.cfg"), invariants=invs)
     if simulate:
         return tlc("Editor", cfg, f"c10-{tag}", workers=1, timeout=1700, simulate=simulate, depth=maxops + 2, seed=seed)
     return tlc("Editor", cfg, f"c10-{tag}", workers=10, timeout=1700)
@@ -74,6 +74,10 @@ def run(tier, seed):
     progs = [p for p in gen.replays if not p.get("probe")][seed % stride::stride]
     # signing attempts with some but too few of a role's keys: all of them in the thorough tier, one in three otherwise
     progs += probes if tier == "thorough" else probes[seed % 3::3]
+    # deeper programs on one role: every program of up to 7 operations over one target without delegations (a target
+    # added, signed, re-opened, added again, removed, ...)
+    deep = model(w, 7, "TRUE", ["Emit"], "deep", names='{"t1"}', dkeys="{}")
+    progs += deep.replays
     if tier == "thorough":
         # long programs (12..25 operations over three targets and both delegated roles) by simulation
         lg = model(w, 25, "TRUE", ["Emit"], "long", names='{"t1", "t2", "t3"}', minops=12, simulate=400, seed=seed)
